@@ -17,6 +17,7 @@ from typing import Any, Callable, Dict, List, Optional
 ROOT = os.path.dirname(os.path.dirname(os.path.abspath(__file__)))
 NCPU = int(os.environ.get("VERIF_JOBS", "0")) or min(16, os.cpu_count() or 4)
 EXIT_OK, EXIT_VIOLATION, EXIT_INCONCLUSIVE = 0, 1, 3
+REPLAY_PER_KEY = 3
 
 
 @dataclass
@@ -254,8 +255,19 @@ def run_symx(
             seen.add(hsh)
             rec["symbolic_exception"] = f.get("symbolic_exception")
             candidates.append(rec)
-    # mandatory concrete replay against the pure-Python sources of the current tree
-    reps = replay_records(candidates, purepy=True) if candidates else []
+    # mandatory concrete replay against the pure-Python sources of the current tree.  A defect family
+    # can make thousands of paths fail: candidates are grouped by their (pre-replay) classification key
+    # and at most REPLAY_PER_KEY of each group are replayed -- every distinct key is still replayed.
+    groups: Dict[str, List[Dict[str, Any]]] = {}
+    for rec in candidates:
+        try:
+            prekey = classify(rec["harness"], rec["args"], {"holds": False, "exception": rec.get("symbolic_exception") or ""})[0]
+        except Exception:  # noqa: BLE001
+            prekey = "?" + rec["harness"]
+        groups.setdefault(prekey, []).append(rec)
+    not_replayed = sum(max(0, len(g) - REPLAY_PER_KEY) for g in groups.values())
+    candidates = [r for g in groups.values() for r in g[:REPLAY_PER_KEY]]
+    reps = replay_records(candidates, purepy=True, timeout=900) if candidates else []
     for rec, rep in zip(candidates, reps):
         if rep.get("holds", True):
             out.artifacts.append({"harness": rec["harness"], "args": rec["args"],
@@ -300,6 +312,7 @@ def run_symx(
         "stubs": meta.get("stubs", []),
         "engine_artifacts": out.artifacts[:10],
         "engine_artifact_count": len(out.artifacts),
+        "failing_paths_not_replayed_same_key": not_replayed,
         "samples": samples or [{"note": "no passing path recorded"}],
         "engine_wall_s": round(time.time() - t0, 2),
     }
